@@ -844,6 +844,13 @@ protected:
       {
         // Handle chunked encoding
         requestEndPos = findChunkedRequestEnd(dataStr, headerEnd + 4);
+        if (requestEndPos == CHUNKED_INVALID)
+        {
+          iora::core::Logger::error("HttpServer: Invalid chunked encoding for session " +
+                                    std::to_string(sid) + " - rejecting request");
+          sendErrorResponse(sid, 400, "Bad Request", "Invalid chunked encoding");
+          return;
+        }
         if (requestEndPos == std::string::npos)
         {
           break; // Need more data for chunked body
@@ -1373,6 +1380,9 @@ protected:
                               std::to_string(sid));
   }
 
+  /// \brief Returned by findChunkedRequestEnd for a body that can never become valid.
+  static constexpr std::size_t CHUNKED_INVALID = std::string::npos - 1;
+
   /// \brief Strict Content-Length value: 1*DIGIT, or a comma list of identical numbers.
   static bool parseContentLengthValue(const std::string &value, std::size_t &out)
   {
@@ -1409,55 +1419,93 @@ protected:
     return have;
   }
 
-  /// \brief Find the end of a chunked request body
+  /// \brief Find the end of a chunked request body.
+  /// \return offset just past the body (after the trailer section),
+  ///         std::string::npos if more data is needed, or CHUNKED_INVALID if the
+  ///         coding is malformed (bad or oversize chunk size, missing CRLF).
   std::size_t findChunkedRequestEnd(const std::string &data, std::size_t bodyStart) const
   {
+    static constexpr std::size_t MAX_CHUNK_LINE = 4096;
     std::size_t pos = bodyStart;
 
-    while (pos < data.length())
+    for (;;)
     {
       // Find chunk size line
-      auto chunkSizeLine = data.find("\r\n", pos);
-      if (chunkSizeLine == std::string::npos)
+      auto lineEnd = data.find("\r\n", pos);
+      if (lineEnd == std::string::npos)
       {
-        return std::string::npos; // Need more data
+        return (data.length() - pos > MAX_CHUNK_LINE) ? CHUNKED_INVALID : std::string::npos;
       }
 
-      // Parse chunk size (hex)
-      std::string chunkSizeStr = data.substr(pos, chunkSizeLine - pos);
-      std::size_t chunkSize;
-      try
+      // chunk-size = 1*HEXDIG (at most 16 digits, so it cannot overflow),
+      // optionally followed by BWS and chunk extensions introduced by ';'
+      std::size_t i = pos;
+      std::size_t chunkSize = 0;
+      int digits = 0;
+      while (i < lineEnd && std::isxdigit(static_cast<unsigned char>(data[i])))
       {
-        chunkSize = std::stoul(chunkSizeStr, nullptr, 16);
+        if (++digits > 16)
+        {
+          return CHUNKED_INVALID;
+        }
+        const char c = data[i];
+        const std::size_t v = (c >= '0' && c <= '9') ? static_cast<std::size_t>(c - '0')
+                                                     : static_cast<std::size_t>((c | 0x20) - 'a' + 10);
+        chunkSize = (chunkSize << 4) | v;
+        ++i;
       }
-      catch (...)
+      if (digits == 0)
       {
         iora::core::Logger::error("HttpServer: Invalid chunk size in chunked encoding");
-        return std::string::npos;
+        return CHUNKED_INVALID;
+      }
+      while (i < lineEnd && (data[i] == ' ' || data[i] == '\t'))
+      {
+        ++i;
+      }
+      if (i < lineEnd && data[i] != ';')
+      {
+        iora::core::Logger::error("HttpServer: Invalid chunk size in chunked encoding");
+        return CHUNKED_INVALID;
       }
 
-      pos = chunkSizeLine + 2; // Skip \r\n
+      pos = lineEnd + 2; // Skip \r\n
 
       if (chunkSize == 0)
       {
-        // Final chunk, look for final \r\n
-        auto finalCRLF = data.find("\r\n", pos);
-        if (finalCRLF == std::string::npos)
+        // Last chunk: skip the trailer section (zero or more field lines) up
+        // to and including the empty line that ends the message.
+        for (;;)
         {
-          return std::string::npos; // Need more data
+          auto trailerEnd = data.find("\r\n", pos);
+          if (trailerEnd == std::string::npos)
+          {
+            return (data.length() - pos > SessionInfo::MAX_HEADER_SIZE) ? CHUNKED_INVALID
+                                                                        : std::string::npos;
+          }
+          const bool emptyLine = (trailerEnd == pos);
+          pos = trailerEnd + 2;
+          if (emptyLine)
+          {
+            return pos;
+          }
         }
-        return finalCRLF + 2;
       }
 
-      // Skip chunk data + trailing \r\n
-      pos += chunkSize + 2;
-      if (pos > data.length())
+      if (chunkSize > SessionInfo::MAX_BODY_SIZE)
+      {
+        return CHUNKED_INVALID; // also keeps the arithmetic below overflow-free
+      }
+      if (data.length() - pos < chunkSize + 2)
       {
         return std::string::npos; // Need more data
       }
+      if (data[pos + chunkSize] != '\r' || data[pos + chunkSize + 1] != '\n')
+      {
+        return CHUNKED_INVALID; // chunk data not followed by CRLF
+      }
+      pos += chunkSize + 2;
     }
-
-    return std::string::npos;
   }
 
   /// \brief Compute the Allow header value for a request path by evaluating the
